@@ -74,6 +74,12 @@ def generate(seed, tier, index):
             sc['config']['P'] = r.randint(1, 5)
             sc['config']['run'].pop('legs', None)
             cfg = sc['config']
+            if sc['faults'].get('verdicts'):
+                # restart requests issued in the middle of the iteration of a step that keeps iterating while others finish do not
+                # occur with any shipped controller (restarts are decided at the final iteration); the two flavours of
+                # BasicRestarting propagate them differently (stale MPI buffer vs reset serial buffer).  Not part of this workload.
+                sc['faults']['restarts'] = []
+                sc['faults'].pop('restart_any_iter', None)
             span = cfg['run']['Tend'] - cfg['run']['t0']
             cfg['run']['Tend'] = cfg['run']['t0'] + min(span, 24 * cfg['level']['dt'])
             if cfg['sweeper']['params'].get('do_coll_update'):
@@ -169,7 +175,13 @@ def execute(sc):
     outcome, world, recs = simmpi.run_mpi(sc, res, log)
     log.add('outcome', outcome)
     forced_later = any(w == 'done' and s_ >= 1 for _, s_, _, w in sc['faults'].get('force', []))
+    _br = next((p for n_, p in cfg.get('cc', []) if n_.startswith('BasicRestarting')), {})
+    _ad = next((p for n_, p in cfg.get('cc', []) if n_ == 'Adaptivity'), None)
+    _uneven = cfg['level'].get('restol', -1) >= 0 or bool(sc['faults'].get('verdicts')) or bool(_ad and _ad.get('avoid_restarts'))
     for clause, site, detail, ident in world.violations:
+        if T > 1 and _br.get('restart_from_first_step') and _uneven and clause in ('collective_mismatch', 'deadlock', 'collective_incomplete', 'unmatched_send', 'unmatched_recv', 'incomplete_recv'):
+            V('collectives_of_restart_from_first_step', 'BasicRestartingMPI.determine_restart', detail, root='collectives_inside_iteration_need_equal_iteration_counts')
+            continue
         if clause == 'deadlock' and forced_later:
             V('deadlock_after_forced_stop', 'CheckConvergence.communicate_convergence', detail, root='force_done_skips_status_handshake')
         elif clause in ('unmatched_send', 'unmatched_recv', 'incomplete_recv', 'collective_incomplete') and forced_later:
@@ -197,6 +209,23 @@ def execute(sc):
             V('unexpected_exception', e[0], e[1] + ' | ' + (e[2][-400:] if len(e) > 2 else ''))
     if outcome in ('finished', 'aborted') and (mpi_exc or None) != (ser_exc or None) and not res['violations']:
         V('outcome_differs', 'controller_MPI.run', f'MPI run: {mpi_exc or "finished"}, serial run: {ser_exc or "finished"}')
+    # ---- two more known root causes, recognised from the configuration (everything else stays reportable)
+    br_p = next((p for n_, p in cfg.get('cc', []) if n_.startswith('BasicRestarting')), {})
+    ad_p = next((p for n_, p in cfg.get('cc', []) if n_ == 'Adaptivity'), None)
+    uneven = cfg['level'].get('restol', -1) >= 0 or bool(sc['faults'].get('verdicts')) or bool(ad_p and ad_p.get('avoid_restarts'))
+    rffs_uneven = T > 1 and br_p.get('restart_from_first_step') and uneven
+    lin_avoid = T > 1 and ad_p is not None and ad_p.get('avoid_restarts') and ad_p.get('embedded_error_flavor') == 'linearized'
+    if rffs_uneven or lin_avoid:
+        _V0 = V
+
+        def V(clause, site, detail, **ident):  # noqa: F811
+            if rffs_uneven and clause in ('collective_mismatch', 'deadlock', 'collective_incomplete', 'unmatched_send', 'unmatched_recv', 'incomplete_recv', 'outcome_differs', 'termination'):
+                _V0('collectives_of_restart_from_first_step', 'BasicRestartingMPI.determine_restart', detail, root='collectives_inside_iteration_need_equal_iteration_counts')
+            elif lin_avoid and clause in ('niter_differs', 'value_differs', 'returned_value_differs', 'logged_value_differs', 'dt_differs', 'restart_differs', 'attempts_differ', 'restart_counter_differs', 'step_time_differs'):
+                _V0('linearized_estimate_after_predecessor_finished', 'EstimateEmbeddedErrorLinearized', detail, root='serial_flavour_resets_accumulated_error_when_predecessor_is_done')
+            else:
+                _V0(clause, site, detail, **ident)
+
     forced_any = any(w == 'done' for _, _, _, w in sc['faults'].get('force', []))
     if forced_any:
         # status.force_done is handled differently by the two flavours (F14): controller_MPI skips the status handshake
